@@ -30,6 +30,26 @@ Theorem C06_no_fuel : forall bs pos,
   tokenize bs pos <> Err EFuel /\ stacked_stream bs pos <> LErr (LOther EFuel).
 Proof. intros bs pos. exact (conj (tokenize_no_fuel bs pos) (stacked_no_fuel bs pos)). Qed.
 
+(* The success domain of the parse: Pickled.load succeeds exactly on the streams on which the stock
+   token loop reaches STOP and every opcode has a fickling class (one opcode per token, at the token's
+   position); an opcode without a class is refused with NotImplementedError; a tokeniser ValueError
+   becomes EmptyPickleError / PickleDecodeError (or NotImplementedError if an unsupported opcode came
+   first).  So the hypothesis of the theorems below holds for EVERY stream that begins with a complete
+   pickle over supported opcodes. *)
+Theorem C06_accepts_complete : forall bs o ts,
+  tokenize bs o = Ok ts ->
+  (forallb (fun t => row_has_class (t_row t)) ts = true ->
+     exists r, load_model KSeekable bs o = LOk r /\
+               map o_row (l_ops r) = map t_row ts /\ map o_pos (l_ops r) = map t_pos ts) /\
+  (forallb (fun t => row_has_class (t_row t)) ts = false -> load_model KSeekable bs o = LErr LNotImpl).
+Proof. exact load_accepts. Qed.
+
+Theorem C06_rejects_incomplete : forall bs o e,
+  tokenize bs o = Err e ->
+  exists x, load_model KSeekable bs o = LErr x /\
+            (e = EValue -> x = LEmpty \/ x = LDecode \/ x = LNotImpl).
+Proof. exact load_rejects. Qed.
+
 (* Seekable stream at ANY offset o: whenever Pickled.load succeeds, dumps() is exactly the bytes
    bs[o, e); the parse starts at o and ends in a STOP whose end is e; the stream is left at e; what
    the caller can still read is exactly bs[e:]; nothing is lost: bs = bs[:o] ++ dumps ++ bs[e:]. *)
@@ -158,6 +178,8 @@ Proof. vm_compute. repeat split. Qed.
 Print Assumptions C06_table_obligations.
 Print Assumptions C06_tokenize_sound.
 Print Assumptions C06_no_fuel.
+Print Assumptions C06_accepts_complete.
+Print Assumptions C06_rejects_incomplete.
 Print Assumptions C06_dumps_exact.
 Print Assumptions C06_dumps_exact_bytes.
 Print Assumptions C06_prefix_determinism.
